@@ -14,10 +14,10 @@ IN_PROCESS = ("naive", "priority", "priority-pool", "overbook", "tmpl")
 
 def scheduler(P: Program, key: str) -> Func:
     """The function registered for `key`, with its private single-purpose helpers inlined ("extract function" changes nothing)."""
-    from ..util import inline_helpers, dealias, desugar_extend
+    from ..util import inline_helpers, dealias, desugar_extend, prefix_counter_to_list
     # ... dict comprehensions / extend(<comprehension>) written as the loops they abbreviate, object aliases such as
     # `stats = pool_stats[pool_id]` written out
-    return dealias(desugar_extend(inline_helpers(P, P.scheduler(key))))
+    return dealias(desugar_extend(prefix_counter_to_list(inline_helpers(P, P.scheduler(key)))))
 
 
 def module_helpers(P: Program, f: Func, depth: int = 3) -> List[Func]:
@@ -29,7 +29,7 @@ def module_helpers(P: Program, f: Func, depth: int = 3) -> List[Func]:
         for g in work:
             for c in own_nodes(g.node):
                 if isinstance(c, ast.Call) and isinstance(c.func, ast.Name) and c.func.id in g.mod.funcs:
-                    h = g.mod.funcs[c.func.id]
+                    h = P.fn(g.mod.rel, c.func.id)      # as the rules see it: its own helpers looked through
                     if id(h.node) not in seen:
                         seen[id(h.node)] = h
                         nxt.append(h)
